@@ -53,7 +53,7 @@ class Put(Event, ContextManager['Put'], Generic[ResourceType]):
         example if a process needs to handle an exception like an Interrupt.
 
         """
-        if not self.triggered:
+        if not self.triggered and self in self.resource.put_queue:
             self.resource.put_queue.remove(self)
             # the request behind a cancelled head request may be satisfiable
             self.resource._trigger_put(None)
@@ -93,7 +93,7 @@ class Get(Event, ContextManager['Get'], Generic[ResourceType]):
         called automatically.
 
         """
-        if not self.triggered:
+        if not self.triggered and self in self.resource.get_queue:
             self.resource.get_queue.remove(self)
             # the request behind a cancelled head request may be satisfiable
             self.resource._trigger_get(None)
